@@ -737,6 +737,16 @@ def streams(ctx):
     out.append(Stream("corpus-lexes", l, kind="corpus", nontrivial=_nontrivial,
                       note="every lexing entry point"))
 
+    # 1b. directed shapes (tools/shapes.py) in batches: start offsets must only translate positions on the grammar regions
+    #     random generation seldom reaches (parameter-list sections, with-items of every expression kind, rare productions)
+    import shapes
+    sh = shapes.all_shapes()
+    step = 12 if quick else 3
+    batches = ["".join(sh[i:i + 30]) for i in range(0, len(sh), 30)][::step]
+    e, _l = _build_requests("default", [(b, 400) for b in batches])
+    out.append(Stream("directed-shapes-entries", e, kind="directed", nontrivial=_nontrivial,
+                      note="%d batches of 30 directed statements at offset 400, every entry point" % len(batches)))
+
     # 2. one text per Stmt/Expr variant: every generated parser has a text it accepts
     items = with_offsets(_variant_reqs_sources(), ks=None if not quick else [0, 400, 2 ** 31])
     e, l = _build_requests("default", items)
